@@ -481,6 +481,13 @@ class Exemptions:
         f = self.ix.funcs.get("dateparser.utils:_get_missing_parts")
         if f is None:
             return False
+        try:
+            from .c08 import format_part_table
+            table, _ = format_part_table(self.ctx, "C02.R1")       # reads the table wherever the function keeps it
+            if {"%y", "%Y"} <= set(table.get("year", ())):
+                return True
+        except Exception:
+            pass
         for n in iter_own_nodes(f.node):
             if isinstance(n, ast.Dict):
                 try:
